@@ -183,6 +183,8 @@ class _TableFormSection(object):
     m = cls._section_name_regex.match(section_name)
     name = m.groups()[0]
     name = name.strip()
+    if not name:
+      raise ConfigParserException("A table form needs a name: [{}:NAME]. Section found: [{}]".format(cls._section_name_prefix, section_name))
     return name
 
   @classmethod
@@ -268,6 +270,11 @@ class _TableFormSection(object):
       data = self._parse_xy(section_name, section)
     else:
       raise ConfigParserException("Could not parse data from '{}', neither 'xy' or 'x' and 'y' entries found.".format(section_name))
+
+    for values in data:
+      for v in values:
+        if not (float("-inf") < v < float("inf")):
+          raise ConfigParserException("The data of '{}' must be finite numbers, found: {}".format(section_name, v))
 
     return data
 
